@@ -214,6 +214,7 @@ func (q *qelim) instantiate(t *Term, prove bool, depth int) *Term {
 			return t
 		}
 		var cands []*Term
+		cands = append(cands, q.matchCands(t)...)
 		if len(t.Args) > 1 && t.Args[1].Op == "select" {
 			// pattern (select A' o): instantiate at every index A' is read at
 			seenC := map[*Term]bool{}
@@ -224,7 +225,21 @@ func (q *qelim) instantiate(t *Term, prove bool, depth int) *Term {
 				}
 			}
 		} else {
-			cands = q.cands
+			cands = append(cands, q.cands...)
+		}
+		{
+			seenC := map[*Term]bool{}
+			var uniq []*Term
+			for _, c := range cands {
+				if !seenC[c] {
+					seenC[c] = true
+					uniq = append(uniq, c)
+				}
+			}
+			cands = uniq
+			if len(cands) > 40 {
+				cands = cands[:40]
+			}
 		}
 		var parts []*Term
 		for _, c := range cands {
@@ -334,4 +349,58 @@ func qfVersion(assumptions []*Term, goal *Term) (as []*Term, g *Term, ok bool) {
 		return nil, nil, false
 	}
 	return out, g2, true
+}
+
+// addLeaf: is t a sum in which the bound variable k occurs exactly once as an addend? returns the rest of the sum.
+func addLeaf(t, k *Term) (*Term, bool) {
+	if t == k {
+		return BV(0, t.S.W), true
+	}
+	if t.Op == "bvadd" && len(t.Args) == 2 {
+		a, b := t.Args[0], t.Args[1]
+		memo := map[*Term]bool{}
+		ina, inb := containsVar(a, []*Term{k}, memo), containsVar(b, []*Term{k}, memo)
+		if ina && !inb {
+			if r, ok := addLeaf(a, k); ok {
+				return BVAdd(r, b), true
+			}
+		}
+		if inb && !ina {
+			if r, ok := addLeaf(b, k); ok {
+				return BVAdd(a, r), true
+			}
+		}
+	}
+	return nil, false
+}
+
+// matchCands: e-matching by hand for the array property fragment: for every read A[base + k] in the body
+// and every ground read A[t] in the query, k := t - base.
+func (q *qelim) matchCands(t *Term) []*Term {
+	if len(t.BVs) != 1 {
+		return nil
+	}
+	k := t.BVs[0]
+	var out []*Term
+	seen := map[*Term]bool{}
+	memo := map[*Term]bool{}
+	var walk func(u *Term)
+	walk = func(u *Term) {
+		if seen[u] {
+			return
+		}
+		seen[u] = true
+		if u.Op == "select" && u.Args[0].S.Idx == k.S && !containsVar(u.Args[0], []*Term{k}, memo) {
+			if base, ok := addLeaf(u.Args[1], k); ok && !hasBoundVar(base) {
+				for _, g := range q.selIdx[u.Args[0]] {
+					out = append(out, BVSub(g, base))
+				}
+			}
+		}
+		for _, a := range u.Args {
+			walk(a)
+		}
+	}
+	walk(t.Args[0])
+	return out
 }
